@@ -3,8 +3,11 @@
    positive, nat stay Coq datatypes. No Extract Constant of our own. *)
 Require Extraction.
 Require ExtrOcamlBasic.
-From Lospan Require Import Base.Bytes Base.AES Model.CMAC Model.FrameTypes Model.Crypto Spec.RFC4493.
+From Lospan Require Import Base.Bytes Base.AES Base.Outcome Gen.Consts Model.CMAC Model.FrameTypes Model.Crypto Model.MacCmd
+  Spec.RFC4493 Spec.MacLayout.
 Extraction Language OCaml.
 Extraction "lospan_model.ml"
   aes_enc aes_dec aescmac rfc4493 frame_crypt payload_crypt data_mic buffer_mic
-  bytes_eqb le_val le_bytes devaddr_of_u32 devaddr_u32.
+  bytes_eqb le_val le_bytes devaddr_of_u32 devaddr_u32 err_code mtype_uplink
+  cmd_encode cmd_decode new_cmd cmd_len new_set set_add set_remove set_list set_encoded_length set_size set_encode
+  decode_bounded layout_payload layout_fields.
